@@ -275,11 +275,12 @@ func (d *driver) browse(st *Step) {
 			}
 			d.doAuthz(st.B, lg)
 			next = Step{Op: "check", B: st.B, F: f.Name, Kind: "callback", Cookie: "jar", St: "jar", Code: "jar", Ans: st.Ans}
-		case u.Host == appHost:
-			// back to the application: must be one of the pool URLs to be followed faithfully
+		case u.Host == appHost || u.Host == appHost+":443":
+			// back to the application: must be one of the pool URLs (under the scheme and authority the browser used) to be followed faithfully
 			idx := -1
+			sch, hst := envelopeAuthority(d.env.spec.Env, "app")
 			for i, p := range urlPool {
-				if loc == "https://"+appHost+p {
+				if loc == sch+"://"+hst+p {
 					idx = i
 				}
 			}
